@@ -41,6 +41,7 @@ partial def texprOf (j : Json) : Except String TExpr := do
   | "tuple" => return .tuple (← (← getArr j "elts").toList.mapM texprOf)
   | "attr" => return .attr (← texprOf (← field j "value")) (← getChars j "attr")
   | "list" => return .list (← (← getArr j "elts").toList.mapM texprOf)
+  | "binop" => return .binop (← texprOf (← field j "left")) (← texprOf (← field j "right"))
   | k => throw s!"bad-texpr: {k}"
 
 partial def texprJ : TExpr → Json
@@ -50,6 +51,7 @@ partial def texprJ : TExpr → Json
   | .tuple es => Json.mkObj [("k", "tuple"), ("elts", Json.arr (es.map texprJ).toArray)]
   | .attr v a => Json.mkObj [("k", "attr"), ("value", texprJ v), ("attr", str a)]
   | .list es => Json.mkObj [("k", "list"), ("elts", Json.arr (es.map texprJ).toArray)]
+  | .binop l r => Json.mkObj [("k", "binop"), ("left", texprJ l), ("right", texprJ r)]
 
 def codeEvalOf (j : Json) : Except String CodeEval := do
   match (← kind j) with
